@@ -11,3 +11,7 @@ func vAssertRoundedInt(a *decimal, n uint64, id string)
 func vAbsDecimal(d *decimal, lit []byte)
 
 func vAssertHalfwayFits(n int, man uint64, e2 int, id string)
+
+func vAssertScanExpo(lit []byte, mant uint64, exp int, neg bool, trunc bool, id string)
+
+func vAssertSetExpo(lit []byte, d *decimal, id string)
